@@ -747,3 +747,39 @@ Proof.
   destruct (run rd ps fuel f w c a) as [st|l st|ok st|s|s]; try contradiction.
   exists ok, st. split; [reflexivity|]. lia.
 Qed.
+
+(* ------------------------------------------------------------------ message-level entry points *)
+Lemma entry_guard_bound : forall g n, entry_ok g = true -> cmp_eval (fst g) n (snd g) = false -> n <= snd g.
+Proof.
+  intros [op lim] n H E. unfold entry_ok in H. cbn [fst snd] in *.
+  destruct op; try discriminate; cbn [cmp_eval] in E; lia.
+Qed.
+
+Lemma entry_limit_ge : forall gs g, In g gs -> snd g <= entry_limit gs.
+Proof.
+  induction gs as [|h r IH]; intros g I; [contradiction|]. cbn [entry_limit fold_right].
+  destruct I as [->|I]; [lia|]. specialize (IH g I). unfold entry_limit in IH. lia.
+Qed.
+
+(* buffering n declared bytes behind an accepted guard and then decoding them with a decoder of a linear table:
+   total allocation <= n + coef*n + size with n <= the guard's constant *)
+Theorem entry_alloc_bound : forall ps gs unguarded, all_linear ps = true -> entries_ok gs unguarded = true ->
+  forall g, In g gs -> forall n, 0 <= n -> cmp_eval (fst g) n (snd g) = false ->
+  forall f body, lookup ps f = Some body -> forall bs : list Z, Z.of_nat (length bs) = n ->
+    exists ok st, decode ps f bs = FRet ok st /\
+      n + salloc st <= (coef ps + 1) * entry_limit gs + size ps /\
+      scost st <= coef ps * entry_limit gs + size ps.
+Proof.
+  intros ps gs u HL HE g I n Hn E f body L bs Hlen.
+  unfold entries_ok in HE. apply andb_true_iff in HE. destruct HE as [HE _].
+  rewrite forallb_forall in HE. pose proof (entry_guard_bound g n (HE g I) E) as B.
+  pose proof (entry_limit_ge gs g I) as B2.
+  unfold decode, run_top.
+  destruct (linear_sound ps HL f body L (rd_of bs) (mkW 0 (Z.of_nat (length bs)) (Z.of_nat (length bs)))
+              (S (length bs)) 0 0) as (ok & st & R & C1 & C2).
+  - cbn [wlen wcap]. lia.
+  - cbn [wlen]. lia.
+  - exists ok, st. split; [exact R|]. cbn [wlen] in C1, C2.
+    assert (0 <= coef ps) by (unfold coef; pose proof (size_nonneg ps); lia).
+    split; nia.
+Qed.
